@@ -104,6 +104,8 @@ type fsScenario struct {
 	Bound      *int
 	// RepeatFault: once the downstream has rejected a call it keeps rejecting (per channel) until the task is resumed
 	RepeatFault bool
+	// Gen: member of a generated family (sharded by scenario, not by subtree)
+	Gen bool
 }
 
 func fsTs(ms, lg int64) uint64 { return tsoutil.ComposeTS(ms, lg) }
